@@ -35,8 +35,11 @@ Theorem expand_sequential : forall f cx l1 acc l2,
 Proof. exact expand_app. Qed.
 Print Assumptions expand_sequential.
 
-(** ** config_inherit: in the compiled tree the config of EVERY node (addressed by any path) is its
-    own statement if it has one, else that of the nearest ancestor that states it, else true *)
+(** ** config_inherit: in the compiled tree the config of EVERY data node (addressed by any path) is
+    its own statement if it has one, else that of the nearest ancestor that states it, else true.
+    An rpc/action, its input/output and a notification carry no config and cut the inheritance
+    ([nearest_stated]): a node below them takes its own statement, else that of the nearest ancestor
+    INSIDE the operation, else true — whatever the nodes around the operation state *)
 Theorem config_inherit : forall path pcfg l l' c,
   config_kids pcfg l = Some l' ->
   nearest_stated pcfg path l = Some c ->
@@ -480,3 +483,76 @@ Example unused_grouping_invisible_applies :
 Proof.
   split; [|reflexivity]. split; [split; reflexivity|]. split; [constructor|repeat constructor].
 Qed.
+
+(** ** Operations: rpc/action {input; output} and notification, also when they come out of a
+    grouping (Schemac/Ops.v).
+
+    uses_inline_deep: "every uses is replaced by a copy of the grouping's nodes" at ANY depth. [inl]
+    relates a statement list to the same list with one uses — at the top, or anywhere below
+    containers, lists, choices, cases, the input/output of an rpc/action, a notification — replaced
+    by the plain text of its expansion; both expand to the same thing, in every lexical context,
+    after any earlier siblings, for every fuel. *)
+From YV Require Import Schemac.Ops.
+
+Theorem uses_inline_deep : forall f cx acc l l',
+  inl f cx acc l l' -> expand f cx acc l = expand f cx acc l'.
+Proof. exact uses_inline_deep_proof. Qed.
+Print Assumptions uses_inline_deep.
+
+(** grouping_ops_expanded: a plain uses of a grouping whose body has a uses somewhere below — e.g.
+    in the input of an action or in a notification defined IN the grouping — expands to that body
+    with the inner uses written out, in the lexical context of the grouping's definition: the
+    operations that come out of a grouping are resolved like the ones written in place. *)
+Theorem grouping_ops_expanded : forall f cx acc g body body' cg,
+  find_grouping cx None g = Some (body, cg) -> inl f cg acc body body' ->
+  expand (S f) cx acc [SUses None g None [] []] = expand f cg acc body'.
+Proof. exact grouping_ops_expanded_proof. Qed.
+Print Assumptions grouping_ops_expanded.
+
+(** the condition of a uses is not put on the rpcs/actions/notifications of the grouping (they
+    take no `when`) *)
+Theorem uses_when_spares_operations : forall w k n p keys grps kids,
+  is_datadef k = false ->
+  set_when w (SNode k n p keys grps kids) = SNode k n p keys grps kids.
+Proof. exact set_when_spares_ops_proof. Qed.
+Print Assumptions uses_when_spares_operations.
+
+(** compile_ops_placed: in EVERY compiled tree, whatever the source, an rpc/action or notification
+    is a member of a container, a list or the module only — never of a case, choice, input, output,
+    notification or leaf, also when a uses or an augment put it there ([placed] at every node). *)
+Theorem compile_ops_placed : forall fuel ms t,
+  compile_modset fuel ms = Ok t -> forallb placed t = true.
+Proof. exact compile_placed_proof. Qed.
+Print Assumptions compile_ops_placed.
+
+(** module m { grouping params { leaf speed; }
+               grouping ops { action reset { input { uses params; } } notification done { uses params; } }
+               container box { config false; uses ops; } }
+    compiles to the tree of the text with both inner uses written out; the leaves below the input
+    and the notification are config true although the container is config false (config_inherit's
+    cut) *)
+Example ops_from_grouping_example :
+  compile_modset default_fuel (op_ms [SUses None [x70] None [] []]) = Ok op_tree /\
+  compile_modset default_fuel (op_ms [op_leaf [x73]]) = Ok op_tree.
+Proof. exact ops_from_grouping_example_proof. Qed.
+
+Example uses_inline_deep_applies :
+  inl 5 op_cx []
+      [SNode KAction [x72] no_props [] [] [SNode KInput [x69] no_props [] [] [SUses None [x70] None [] []]]]
+      [SNode KAction [x72] no_props [] [] [SNode KInput [x69] no_props [] [] [op_leaf [x73]]]].
+Proof. exact inl_example_proof. Qed.
+
+Example config_inherit_cut_applies :
+  let box := ENode KCont [x62] (pcf (Some false)) []
+               [ENode KNotif [x64] (pcf None) [] [ENode KLeaf [x73] (pcf None) [] []];
+                ENode KLeaf [x74] (pcf None) [] []] in
+  (exists l', config_kids true [box] = Some l') /\
+  nearest_stated true [[x62]; [x64]; [x73]] [box] = Some true /\
+  nearest_stated true [[x62]; [x74]] [box] = Some false /\
+  nearest_stated true [[x62]; [x64]] [box] = None.
+Proof. cbv zeta. split; [eexists; vm_compute; reflexivity|]. vm_compute. repeat split. Qed.
+
+Example compile_ops_placed_applies :
+  forallb placed op_tree = true /\
+  placed (ENode KCase [x63] no_props [] [ENode KAction [x72] no_props [] []]) = false.
+Proof. split; vm_compute; reflexivity. Qed.
